@@ -26,6 +26,66 @@ import (
 
 func init() { commands["bastion"] = bastionMain }
 
+var fuzzPerStep int
+
+// mutate applies one seeded byte-level mutation to a request body.
+func mutate(rng interface {
+	Intn(int) int
+	Read([]byte) (int, error)
+}, b []byte) []byte {
+	out := append([]byte{}, b...)
+	if len(out) == 0 {
+		out = []byte("old 0\n\n")
+	}
+	switch rng.Intn(9) {
+	case 0: // bit flip
+		i := rng.Intn(len(out))
+		out[i] ^= 1 << uint(rng.Intn(8))
+	case 1: // truncate
+		out = out[:rng.Intn(len(out))]
+	case 2: // delete a line
+		lines := bytes.Split(out, []byte("\n"))
+		i := rng.Intn(len(lines))
+		out = bytes.Join(append(lines[:i:i], lines[i+1:]...), []byte("\n"))
+	case 3: // duplicate a line
+		lines := bytes.Split(out, []byte("\n"))
+		i := rng.Intn(len(lines))
+		lines = append(lines[:i+1], lines[i:]...)
+		out = bytes.Join(lines, []byte("\n"))
+	case 4: // insert random bytes
+		i := rng.Intn(len(out) + 1)
+		r := make([]byte, 1+rng.Intn(40))
+		rng.Read(r)
+		out = append(out[:i:i], append(r, out[i:]...)...)
+	case 5: // a very long line (beyond the reader's buffer)
+		i := rng.Intn(len(out) + 1)
+		out = append(out[:i:i], append(bytes.Repeat([]byte("QUFB"), 1500+rng.Intn(3000)), out[i:]...)...)
+	case 6: // replace newlines
+		out = bytes.ReplaceAll(out, []byte("\n"), [][]byte{[]byte("\r\n"), []byte("\r"), []byte("\n\n"), {0}}[rng.Intn(4)])
+	case 7: // huge number
+		out = bytes.Replace(out, []byte("old "), []byte("old 99999999999999999999999"), 1)
+	default: // pure noise
+		out = make([]byte, rng.Intn(600))
+		rng.Read(out)
+	}
+	return out
+}
+
+// serve calls the handler and turns a panic into status -1.
+func serve(h http.Handler, body []byte) (status int, ctype string, rb []byte) {
+	defer func() {
+		if r := recover(); r != nil {
+			status, rb = -1, []byte(fmt.Sprint(r))
+		}
+	}()
+	req := httptest.NewRequest(http.MethodPost, "/", bytes.NewReader(body))
+	rec := httptest.NewRecorder()
+	h.ServeHTTP(rec, req)
+	resp := rec.Result()
+	b, _ := io.ReadAll(resp.Body)
+	return resp.StatusCode, resp.Header.Get("Content-Type"), b
+}
+
 type bastionStep struct {
 	Op      string     `json:"op"`   // post
 	Kind    string     `json:"kind"` // ok | unknown-origin | nosize | suffix | notb64 | noblank | cp-one-line | empty-body | oversize
@@ -74,6 +134,7 @@ func bastionMain(args []string) error {
 	seed := fs.Int64("seed", 1, "seed")
 	workers := fs.Int("workers", 8, "parallel runs")
 	dir := fs.String("dir", os.TempDir(), "scratch")
+	fs.IntVar(&fuzzPerStep, "fuzz", 0, "byte-level mutations of every request body, served to the handler as well (C19)")
 	_ = fs.Parse(args)
 	f, err := os.Open(*in)
 	if err != nil {
@@ -307,6 +368,14 @@ func execBastionRun(base *world.World, r bastionRun, storeKind, embed string, se
 		}
 		events = append(events, ev)
 		pre = post
+		for j := 0; j < fuzzPerStep && limit >= 1000; j++ {
+			fb := mutate(w.Rng, body)
+			fst, _, _ := serve(h, fb)
+			fpost := takeSnapshot(w, st.p)
+			events = append(events, postEvent{E: "post", Run: tag, K: k, Kind: "fuzz", Log: s.Log, Req: rq, Status: fst, Stored: project(w, fpost),
+				Unchanged: pre.equal(fpost), RefOK: "na", Limit: int(limit), SinceMS: -1, GapMS: -1, Body: respBody{Cls: "other", N: -1}, Conc: fmt.Sprintf("mutated body %dB", len(fb))})
+			pre = fpost
+		}
 	}
 	return events, nil
 }
